@@ -38,7 +38,7 @@ def guess_native(name):
         return ["knight", "sliding", "king", "pawn", "castle", "filter"]
     if name.startswith("c06_effect_"):
         return ["vstub_checkmate", "vstub_check"]
-    if name.startswith(("c06_check_", "c06_ending_", "c16_draw_")):
+    if name.startswith(("c06_check_", "c06_ending_", "c16_draw_", "c06_checkmate_")):
         return ["generate_moves", "get_attack_targets"]
     if name == "c18_mate":
         return ["game_ending"]
@@ -171,7 +171,7 @@ for col, cname, w in [("w", "White", True), ("b", "Black", False)]:
         ["generate_valid_moves"], "fully symbolic Disjoint board; symbolic subset kept by the filter stub",
         stubs=[NOSPILL, "generate_knight_moves, generate_sliding_moves, generate_king_moves, generate_pawn_moves, generate_castle_moves -> push one marker move and record (board, colour); remove_invalid_moves -> records the list it sees, keeps a symbolic subset; contracts discharged by the stage harnesses c01_*"],
         module=MG, est_s=60)
-    add(f"c01_wire_pawn_{col}", ["C01"], "experimental",
+    add(f"c01_wire_pawn_{col}", ["C01"], "thorough",
         f"generate_pawn_moves for {cname} with its four sub-stages stubbed: capture targets = attack squares holding enemy pieces, a last-rank move becomes exactly the four promotions (same squares, same capture tag) and never stays standard, other moves stay, en-passant moves appended once, existing list entries preserved",
         ["generate_pawn_moves", "PAWN_PROMOTIONS", "PawnPromotionChessMove::new"],
         "fully symbolic Disjoint board; symbolic outputs of the stubbed sub-stages",
@@ -304,7 +304,7 @@ for hm in ["miss", "hit"]:
         ["MoveGenerator::generate_moves"], "fully symbolic Disjoint board (symbolic key), symbolic colour; hit/miss concrete per harness",
         stubs=[NOSPILL, "lru::LruCache::get / ::put -> recorders of the key (hit/miss chosen by the harness): the LRU's own hashing/eviction is outside the claim; generate_valid_moves -> marker list + argument record (its contract: the C01 stage harnesses)"],
         module=MG, est_s=120, native=["lru_get", "lru_put", "gen_valid"])
-add("c02_wire_attack_cache", ["C02"], "quick",
+add("c02_wire_attack_cache", ["C02", "C06"], "quick",
     "MoveGenerator::get_attack_targets: the attack cache is consulted and filled under (colour asked about, this position's key); a hit is returned as is; a miss generates for this board and colour and stores the result",
     ["MoveGenerator::get_attack_targets"], "fully symbolic Disjoint board, symbolic colour, symbolic cached value / miss",
     stubs=["Targets::get_cached_attack / cache_attack (three-line FxHashMap wrappers) -> recorders; Targets::generate_attack_targets -> arbitrary bitboard + argument record"],
@@ -333,6 +333,15 @@ for col, cname in [("w", "White"), ("b", "Black")]:
         ["Targets::generate_attack_targets"], "fully symbolic Disjoint board; symbolic builder outputs",
         stubs=[NOSPILL, "generate_pawn_attack_targets, Targets::generate_sliding_targets, Targets::generate_targets_from_precomputed_tables -> push one symbolic entry + record the colour; contracts: c01_pawn_attacks_*, c01_slider_*, c01_leaper_*"],
         module=MG, est_s=60, native=["acache_get", "acache_put", "attack_targets"])
+
+for col, cname in [("w", "White"), ("b", "Black")]:
+    add(f"c06_checkmate_{col}", ["C06"], "quick",
+        f"player_is_in_checkmate({cname}) <=> no legal move and in check, for EVERY value of the half-move clock and the repetition bookkeeping (the verdict must not depend on them)",
+        ["player_is_in_checkmate", "player_is_in_check"], "fully symbolic Disjoint board; all counters symbolic; symbolic emptiness of the move list; A arbitrary",
+        stubs=[NOSPILL, GENSTUB], module=EV, est_s=60)
+add("c01_filter_pair_promo_b", ["C01"], "thorough",
+    "remove_invalid_moves on two promotion candidates by Black (e.g. two pawns capturing onto the same last-rank square): each is tried with its own attack map and kept or dropped on its own verdict, order preserved, board restored",
+    ["remove_invalid_moves", "PawnPromotionChessMove::apply", "PawnPromotionChessMove::undo"], STEP_ASSUME, stubs=[NOSPILL, ATTSTUB, APPENDSTUB], module=MG, est_s=600, heavy=True)
 
 def witness(name, props, module, desc, unwind=8, est_s=60):
     add(name, props, "quick", "vacuity witness: " + desc + "; same set-up as the obligations of this family, ends in assert!(false); must FAIL on exactly that assertion",
@@ -394,7 +403,7 @@ PROPS = {
         level_note="Side condition checked syntactically on the tree: the key field is written only inside the three toggle functions, piece sets only inside put/remove. H1 is per draw by nature (each check run sees a fresh draw, the build script runs inside the Kani build). Trusted: Kani/CBMC/CaDiCaL.",
     ),
     "C01": dict(
-        title="Generated moves are exactly the legal moves of chess", jobs=16, jobs_thorough=8,
+        title="Generated moves are exactly the legal moves of chess", jobs=16, jobs_thorough=6, mem_gb=14,
         technique=TECH + "; compositional: per-stage contracts against independent reference rules + a wiring lemma with all stages stubbed",
         level_text="Bounded model checking, compositional. The whole generator cannot be symbolically executed (measured), so each stage of generate_valid_moves is checked on fully symbolic boards against independent reference rules (en passant, castling conditions, pawn pushes/captures/promotions, leaper tables, slider stage, target expansion, legality filter per move kind), and two wiring lemmas on the real generate_valid_moves / generate_pawn_moves with every stage stubbed show the stages are composed as the argument assumes. The attack map is an arbitrary bitboard in the castle and filter stages; its exactness is discharged by the A1 lemmas and C11.",
         level_note="Never runs two real stages back to back: 'each stage meets its contract' and 'the stages are wired as shown' => 'output is the legal set' is a propositional step. SmallVec's heap-spill path is cut (a spill inside a harness is a reported failure). Boards with >16 pieces or >8 pawns per side are outside the claim. Trusted: Kani/CBMC/CaDiCaL, reference rules.",
